@@ -234,6 +234,11 @@ PARAM_CLS = {
     (PKG + ".MIMAS.mask_plane", "region"): REGION,
     (PKG + ".MIMAS.mask_plane", "wcs"): AV(num="obj", cls="astropy.WCS"),
     (PKG + ".MIMAS.mask_table", "region"): REGION,
+    # names of the table columns holding right ascension / declination
+    (PKG + ".MIMAS.mask_table", "racol"): AV(num="str", cls="colname",
+                                            kind=fs("lon")),
+    (PKG + ".MIMAS.mask_table", "deccol"): AV(num="str", cls="colname",
+                                             kind=fs("lat")),
     (PKG + ".MIMAS.combine_regions", "container"):
         AV(num="obj", cls=PKG + ".MIMAS.Dummy"),
 }
@@ -623,6 +628,11 @@ class UnitLib(Lib):
     # ---- subscripts ----------------------------------------------------------
     def subscript(self, it, n, base, ivs, env):
         sl = n.slice
+        if ivs and len(ivs) == 1 and ivs[0] is not None and \
+                ivs[0].cls == "colname" and ivs[0].kind:
+            # table[<name of the ra / dec column>]
+            return container(U(None, ivs[0].kind), cls="ndarray").with_(
+                kind=ivs[0].kind)
         if base.cls == "colarray" and base.elts is not None and \
                 isinstance(sl, ast.Tuple) and len(sl.elts) == 2 and \
                 isinstance(sl.elts[0], ast.Slice):
@@ -1423,6 +1433,12 @@ class ContractObs(Observer):
                 self.add(it, node, "call", "healpy.query_disc radius is in "
                          "%s, radians expected" % sorted(a.unit),
                          {"arg": a.short()})
+            elif a.unit is not None and a.scale is not None and \
+                    (abs(a.scale) >= 1.5 or abs(a.scale) <= 1 / 1.5):
+                self.add(it, node, "call", "healpy.query_disc radius is the "
+                         "contracted radius multiplied by %.6g (not a unit "
+                         "conversion): the disc no longer has the requested "
+                         "size" % a.scale, {"arg": a.short()})
 
     def on_return(self, it, node, val):
         if it.depth:
